@@ -28,27 +28,27 @@ variable {K : Type} [Field K] (c c3 : K) (fn : Fns K)
 theorem N3_st_apply (hc : c * c = 2) (h2 : (2:K) ≠ 0) (a : Fin 6 → Fin 6 → K) (s : Fin 6 → K) :
     gen% (Gen.N3_st_apply_all c c3 fn) | a 6 6 | s 6
       = T2.st c (T4.app (T4.ofST c a) (T2.ofSt c s)) := by
-  t4_eq hc
+  rw [st_app_ST hc h2]; t4_eq hc
 /-- `s * C` is `(s : C)_kl = s_ij C_ijkl` -/
 theorem N3_st_applyL (hc : c * c = 2) (h2 : (2:K) ≠ 0) (s : Fin 6 → K) (a : Fin 6 → Fin 6 → K) :
     gen% (Gen.N3_st_applyL_all c c3 fn) | s 6 | a 6 6
       = T2.st c (T4.appL (T2.ofSt c s) (T4.ofST c a)) := by
-  t4_eq hc
+  rw [st_appL_ST hc h2]; t4_eq hc
 /-- `C * D` (expression template product) is `C_ijmn D_mnkl` -/
 theorem N3_st_comp (hc : c * c = 2) (h2 : (2:K) ≠ 0) (a : Fin 6 → Fin 6 → K) (b : Fin 6 → Fin 6 → K) :
     gen% (Gen.N3_st_comp_all c c3 fn) | a 6 6 | b 6 6
       = rows66 (T4.stoST c (T4.comp (T4.ofST c a) (T4.ofST c b))) := by
-  t4_eq hc
+  rw [stoST_comp_ST_ST hc h2]; t4_eq hc
 /-- `transpose(C)_ijkl = C_klij` -/
 theorem N3_st_transpose (hc : c * c = 2) (h2 : (2:K) ≠ 0) (a : Fin 6 → Fin 6 → K) :
     gen% (Gen.N3_st_transpose_all c c3 fn) | a 6 6
       = rows66 (T4.stoST c (T4.transpose (T4.ofST c a))) := by
-  t4_eq hc
+  rw [stoST_transpose hc h2]; t4_eq hc
 /-- `s ^ t` is `s_ij t_kl` -/
 theorem N3_st_dyad (hc : c * c = 2) (h2 : (2:K) ≠ 0) (s : Fin 6 → K) (t : Fin 6 → K) :
     gen% (Gen.N3_st_dyad_all c c3 fn) | s 6 | t 6
       = rows66 (T4.stoST c (T2.dyad (T2.ofSt c s) (T2.ofSt c t))) := by
-  t4_eq hc
+  rw [stoST_dyad hc h2]; t4_eq hc
 /-- `k*C + D - C/k` through expression templates -/
 theorem N3_st_add_scale (hc : c * c = 2) (h2 : (2:K) ≠ 0) (a : Fin 6 → Fin 6 → K) (b : Fin 6 → Fin 6 → K) (k : K) (hk : k ≠ 0) :
     gen% (Gen.N3_st_add_scale_all c c3 fn) | a 6 6 | b 6 6 | k
@@ -97,6 +97,6 @@ theorem N3_st_convert_from_t2tost2 (hc : c * c = 2) (h2 : (2:K) ≠ 0) (a : Fin 
 theorem N3_st_comp_ts_s2t (hc : c * c = 2) (h2 : (2:K) ≠ 0) (a : Fin 6 → Fin 9 → K) (b : Fin 9 → Fin 6 → K) :
     gen% (Gen.N3_st_comp_ts_s2t_all c c3 fn) | a 6 9 | b 9 6
       = rows66 (T4.stoST c (T4.comp (T4.ofTS c a) (T4.ofS2T c b))) := by
-  t4_eq hc
+  rw [stoST_comp_TS_S2T hc h2]; t4_eq hc
 
 end TfelVerif.C02.Props
